@@ -244,8 +244,8 @@ def classify_text(text):
     lines = text.split('\n')
     if BEGIN_SIGNED in lines:
         # the signed-message framework is C04's subject
-        verdict = DONTCARE
-        reasons.append('signed-framework')
+        n = sum(1 for ln in lines if ln.split())
+        return DONTCARE, None, n, ['signed-framework']
     for line in lines:
         toks = line.split()
         if not toks:
